@@ -12,6 +12,9 @@ Cases ==
   \cup {[transport |-> "tls", stage |-> s, secret |-> "key"] : s \in {"refused", "handshake-fails", "closed-after-handshake", "established"}}
   \cup {[transport |-> "agent", stage |-> s, secret |-> c] : s \in {"refused", "handshake-fails", "closed-after-handshake"},
                                                         c \in {"key", "combined-pem"}}
+  (* key files as users really have them; most of these make the attempt fail before it starts *)
+  \cup {[transport |-> "agent", stage |-> "refused", secret |-> c] :
+          c \in {"one-line", "no-end-marker", "no-begin-marker", "crlf", "der", "latin1-comment", "bom", "truncated"}}
 GenMode == IOEnv.MODE = "gen"
 ASSUME GenMode => PrintT(<<"GEN", ToJson([cases |-> Cases])>>)
 
